@@ -133,11 +133,12 @@ func runUntyped(base kcache.Controller, o *obs) {
 }
 
 type inst struct {
-	stall    bool // the stalled-beyond-buffer scenario
-	ad       adapter
-	typed    obs
-	untyped  obs
-	finished bool
+	noneAtReady bool // the base holds only a foreign object when it becomes ready (nothing of the type)
+	stall       bool // the stalled-beyond-buffer scenario
+	ad          adapter
+	typed       obs
+	untyped     obs
+	finished    bool
 }
 
 // runStalled: a consumer that reads nothing while 3 x buffer events are published (paced: the library's internal
@@ -193,7 +194,11 @@ func (in *inst) run() {
 	// two identical bases (one observed through the typed wrapper, one untyped) driven by the same history
 	bases := []*hx.Root{hx.NewRoot(filter.Null()), hx.NewRoot(filter.Null())}
 	for _, b := range bases {
-		b.Init([]metav1.Object{mk("ns", "a", "1", "l=1"), foreign("1", "l=1")})
+		if in.noneAtReady {
+			b.Init([]metav1.Object{foreign("1", "l=1")})
+		} else {
+			b.Init([]metav1.Object{mk("ns", "a", "1", "l=1"), foreign("1", "l=1")})
+		}
 	}
 	in.ad.run(bases[0].Pub, &in.typed)
 	runUntyped(bases[1].Pub, &in.untyped)
@@ -283,6 +288,9 @@ func (in *inst) check(r *vs.Result) []string {
 	cmp("for-filter clone events", t.cloneSub, u.cloneSub)
 	// OnInitialize argument: list restricted to the type
 	tc, uc := append([]string{}, t.calls...), append([]string{}, u.calls...)
+	if ti, ui := len(tc) > 0 && strings.HasPrefix(tc[0], "init:"), len(uc) > 0 && strings.HasPrefix(uc[0], "init:"); ti != ui {
+		msgs = append(msgs, fmt.Sprintf("typed OnInitialize differs | %s: OnInitialize first: typed %v, untyped %v (typed calls %v, untyped calls %v)", n, ti, ui, tc, uc))
+	}
 	if len(tc) > 0 && len(uc) > 0 && strings.HasPrefix(tc[0], "init:") && strings.HasPrefix(uc[0], "init:") {
 		if strings.TrimPrefix(tc[0], "init:") != restrictList(strings.TrimPrefix(uc[0], "init:")) {
 			msgs = append(msgs, fmt.Sprintf("typed OnInitialize differs | %s: typed %s, untyped %s", n, tc[0], uc[0]))
@@ -313,7 +321,7 @@ func Property() runner.Property {
 	return runner.Property{
 		ID:    "C20",
 		Level: "model_checking",
-		Rule:  "behaviour: for each of the 12 typed packages the tree {Subscribe, SubscribeWithFilter, CloneForFilter+Refilter+Subscribe, NewMonitor} runs through the real typed wrapper over a publisher-level base and, side by side, on the untyped core over an identical base; the history contains objects of a foreign type (in the first list and as an event); schedules within d deviations of the default (d=1 quick, 2 thorough); plus, per package, a subscription whose consumer is stalled through 3 x buffer events (buffer modelled as 2), then drains and closes; oracle: typed event streams, monitor callbacks, cache lists, readiness and Done() equal the untyped ones restricted to the type, foreign objects are skipped, nothing panics. source level (sequential_part): the 12 typed generated.go and 8 generated joins equal their templates instantiated with the Makefile's parameters (structural comparison of every top-level declaration), and the 12 typed clients issue GET on the API path of their own resource and namespace for List and Watch (120 requests against a recording transport: list, watch, both repeated, and watch called without the Watch flag)",
+		Rule:  "behaviour: for each of the 12 typed packages the tree {Subscribe, SubscribeWithFilter, CloneForFilter+Refilter+Subscribe, NewMonitor} runs through the real typed wrapper over a publisher-level base and, side by side, on the untyped core over an identical base; the history contains objects of a foreign type (in the first list and as an event); schedules within d deviations of the default (d=1 quick, 2 thorough); the same tree over a base that holds nothing of the type when it becomes ready; plus, per package, a subscription whose consumer is stalled through 3 x buffer events (buffer modelled as 2), then drains and closes; oracle: typed event streams, monitor callbacks, cache lists, readiness and Done() equal the untyped ones restricted to the type, foreign objects are skipped, nothing panics. source level (sequential_part): the 12 typed generated.go and 8 generated joins equal their templates instantiated with the Makefile's parameters (structural comparison of every top-level declaration), and the 12 typed clients issue GET on the API path of their own resource and namespace for List and Watch (168 requests against a recording transport: list, watch, both repeated, watch called without the Watch flag, and both with label and field selectors)",
 		Assumptions: []string{
 			"publisher-level bases; deviation-bounded schedules",
 			"template equality is an exhaustive structural equality over 20 instances, not a behavioural exploration",
@@ -332,6 +340,14 @@ func Property() runner.Property {
 					Cfg: vs.Config{Timers: vs.TimersIdle, MaxSteps: 400000},
 					New: func() explore.Instance {
 						in := &inst{ad: ad}
+						return explore.Instance{Run: in.run, Check: in.check, Outcome: in.outcome}
+					},
+				}, Split: true})
+				out = append(out, runner.Sc{Scenario: explore.Scenario{
+					Name: "c20/nothing-of-the-type-at-ready/" + ad.name, Mode: "S2", Bound: d,
+					Cfg: vs.Config{Timers: vs.TimersIdle, MaxSteps: 400000},
+					New: func() explore.Instance {
+						in := &inst{ad: ad, noneAtReady: true}
 						return explore.Instance{Run: in.run, Check: in.check, Outcome: in.outcome}
 					},
 				}, Split: true})
